@@ -513,7 +513,10 @@ def run_property(pid, prop, units, by_test, tier, seed, scratch, args, t0):
         for s in (r.get("samples") or [])[:2]:
             if len(merged["samples"]) < 8:
                 merged["samples"].append({"unit": uname, "case": s})
-        if r.get("failed"):
+        if r.get("failed") and r["failure"]["signature"].startswith("harness/"):
+            # the harness could not set the case up (time-outs under load, ...): not a judgement about liftbridge
+            inconclusive.append("%s shard %d: %s: %s" % (uname, job.shard, r["failure"]["signature"], r["failure"]["message"][:300]))
+        elif r.get("failed"):
             path = save_replay(pid, job.unit["test"], r["failure"], r.get("fail_case"))
             violations.append((r["failure"]["signature"], path, r["failure"]["message"]))
         else:
@@ -525,6 +528,10 @@ def run_property(pid, prop, units, by_test, tier, seed, scratch, args, t0):
             elif job.requested and r["evaluations"] < job.requested:
                 inconclusive.append("%s shard %d ran %d of %d requested cases" % (uname, job.shard, r["evaluations"], job.requested))
 
+    # too many cases that the harness could not judge make the run inconclusive
+    ninc = sum(merged["inconclusive"].values())
+    if merged["evaluations"] and ninc * 5 > merged["evaluations"]:
+        inconclusive.append("%d of %d cases were not judged: %s" % (ninc, merged["evaluations"], merged["inconclusive"]))
     # generator health: required labels
     for lab, minfrac in (prop.get("require_labels", {}).get(tier) or prop.get("require_labels", {}).get("any") or {}).items():
         have = merged["labels"].get(lab, 0)
